@@ -302,11 +302,11 @@ structure Pickle (α : Type) where
   loads : Bytes → PRes α
 
 /-- The contract the harness measures on every run over every truncation offset of real saved
-    files: a complete pickle loads back; a proper prefix raises only EOFError or
-    UnpicklingError. -/
-structure Pickle.Contract {α : Type} (P : Pickle α) : Prop where
-  roundtrip : ∀ x, P.loads (P.dumps x) = .ok x
-  truncated : ∀ x n, n < (P.dumps x).length →
+    files, for the set `S` of values that get saved: a complete pickle loads back; a proper prefix
+    raises only EOFError or UnpicklingError. -/
+structure Pickle.Contract {α : Type} (P : Pickle α) (S : α → Prop) : Prop where
+  roundtrip : ∀ x, S x → P.loads (P.dumps x) = .ok x
+  truncated : ∀ x, S x → ∀ n, n < (P.dumps x).length →
     P.loads ((P.dumps x).take n) = .exc .eof ∨ P.loads ((P.dumps x).take n) = .exc .unpickling
 
 /-- what `FileSession._load` + the unpacking in `load`/`clean_up` make of the file content. -/
